@@ -6,15 +6,15 @@ SRC="$1"; SID="$2"; PROP="$3"
 WT="${TMPDIR:-/tmp}/hg_cs_$$"
 cd "$(dirname "$0")/.." || exit 2
 git -C /repo worktree add -q --detach "$WT" HEAD || exit 2
-trap 'git -C /repo worktree remove --force "$WT" >/dev/null 2>&1' EXIT
-PYTHONPATH="$WT/src" /venv/bin/python "$SRC/demo.py" >/tmp/cs_demo0.txt 2>&1; D0=$?
+trap 'git -C /repo worktree remove --force "$WT" >/dev/null 2>&1; rm -f "$WT".*.txt' EXIT
+PYTHONPATH="$WT/src" /venv/bin/python "$SRC/demo.py" >$WT.demo0.txt 2>&1; D0=$?
 (cd "$WT" && git apply "$SRC/patch.diff") || { echo "patch does not apply"; exit 2; }
-PYTHONPATH="$WT/src" /venv/bin/python "$SRC/demo.py" >/tmp/cs_demo1.txt 2>&1; D1=$?
-(cd "$WT" && PYTHONPATH="$WT/src" /venv/bin/python -m pytest -q -p no:cacheprovider -x -n 8 --timeout=900 >/tmp/cs_suite.txt 2>&1); S=$?
+PYTHONPATH="$WT/src" /venv/bin/python "$SRC/demo.py" >$WT.demo1.txt 2>&1; D1=$?
+(cd "$WT" && PYTHONPATH="$WT/src" /venv/bin/python -m pytest -q -p no:cacheprovider -x -n 8 --timeout=900 >$WT.suite.txt 2>&1); S=$?
 echo "demo without change: exit $D0; with change: exit $D1; suite with change: exit $S"
 if [ "$D0" = 0 ] && [ "$D1" != 0 ] && [ "$S" = 0 ]; then
   mkdir -p "seeded/$SID"; cp "$SRC/patch.diff" "$SRC/demo.py" "seeded/$SID/"
   echo "confirmed -> seeded/$SID"
 else
-  echo "NOT confirmed"; tail -5 /tmp/cs_demo0.txt /tmp/cs_demo1.txt /tmp/cs_suite.txt
+  echo "NOT confirmed"; tail -5 $WT.demo0.txt $WT.demo1.txt $WT.suite.txt
 fi
